@@ -19,7 +19,7 @@ From V Require Import Base.Int Base.IO Model.TzParser Model.TzRule Model.TzLooku
 From V Require Import Spec.TzWriter.
 From V Require Import Proofs.TzCommon Proofs.TzEval Proofs.TzGrammar Proofs.TzRoundtrip Proofs.TzWriterRoundtrip Proofs.TzWriterFull Proofs.TzWriterBytes Proofs.C16.
 From V Require Import Proofs.TzFooterSpec.
-From V Require Import Model.C16 Proofs.C16Ops Proofs.TzAcceptSpec Proofs.TzAccept.
+From V Require Import Model.C16 Proofs.C16Ops Proofs.TzAcceptSpec Proofs.TzAccept Proofs.TzAcceptFile.
 Import ListNotations.
 Open Scope Z_scope.
 
@@ -409,3 +409,97 @@ Theorem C16_ltt_record_unterminated : forall names r,
   has_nul (skipn (Z.to_nat (rec_idx r)) names) = false -> ltt_res names r = Err EInvalidTzFile.
 Proof. exact ltt_res_no_nul. Qed.
 Print Assumptions C16_ltt_record_unterminated.
+
+(** *** Whole files *)
+
+(* which block is decoded: a version-1 file is exactly one header (version byte 0, counts fine) and
+   the block it announces, nothing after it; a version-2/3 file is a header with version byte '2'
+   or '3', its 32-bit block (only the lengths matter), a second header with version byte '2' or
+   '3' and the 64-bit block it announces inside the file; everything after it is the footer *)
+Theorem C16_select_iff : forall d st footer, data_ok d ->
+  select d = Val (Ok (st, footer)) <->
+  (v1_layout_ok d = true /\ st = state_at d 0 4 /\ footer = None) \/
+  (v23_layout_ok d = true /\ st = state_at d (off2 d) 8 /\ footer = Some (footer_of d)).
+Proof. exact select_iff. Qed.
+Print Assumptions C16_select_iff.
+
+(* version 1, COMPLETE: for every byte string, the reader accepts it as a version-1 file exactly
+   when the decidable grammar [tzif_v1_accepts] holds (magic, version byte 0, counts, exact file
+   length, every type record [ltt_rec_ok], indicators, type indices, strictly increasing
+   transition times, leap table), and the zone is [tzif_v1_zone]; no function of the reader occurs
+   in the predicate *)
+Theorem C16_tzif_v1_accepts_iff : forall d z, data_ok d ->
+  (parse d = Val (Ok z) /\ byte_at d 4 = 0) <-> (tzif_v1_accepts d = true /\ z = tzif_v1_zone d).
+Proof. exact v1_accepts_iff. Qed.
+Print Assumptions C16_tzif_v1_accepts_iff.
+
+(* version 2 / 3: layout, records, tables and footer text ([footer_text_ok]: valid UTF-8, first and
+   last byte a newline, trimmed text without leading ':' and without NUL) are explicit.
+   PARTIAL: for a non-blank footer the TZ string is judged by the reader's own [from_tz_string]
+   ([footer_rule_res]) and its agreement with the last transition by [footer_consistent] (the
+   reader's rule evaluation); a grammar of the accepted TZ strings as an independent predicate,
+   and the agreement check against the calendar oracle, are what is missing
+   (C16_footer_agrees_consistent gives the latter inside the premise of C05) *)
+Theorem C16_tzif_v23_accepts_iff_partial : forall d z, data_ok d ->
+  (parse d = Val (Ok z) /\ byte_at d 4 <> 0) <-> (tzif_v23_accepts d = true /\ z = tzif_v23_zone d).
+Proof. exact v23_accepts_iff. Qed.
+Print Assumptions C16_tzif_v23_accepts_iff_partial.
+
+(* all files: [parse] accepts exactly [tzif_accepts] and returns [tzif_zone]; partial only through
+   the version-2/3 footer rule as said above *)
+Theorem C16_tzif_accepts_iff_partial : forall d z, data_ok d ->
+  parse d = Val (Ok z) <-> tzif_accepts d = true /\ z = tzif_zone d.
+Proof. exact accepts_iff. Qed.
+Print Assumptions C16_tzif_accepts_iff_partial.
+
+(* the two rejections over all files: when the layout is fine ([selected]: the type records of the
+   block [st] are reached) and some type record of that block has utoff = i32::MIN, or a
+   designation index with no NUL after it inside the designation table, the file is outside the
+   grammar and [parse] answers an error, InvalidTzFile or LocalTimeType: the answer [ltt_res] of
+   the first refused record in file order (C16_tzif_first_bad_record; LocalTimeType for the offset
+   by C16_ltt_record_min_offset, InvalidTzFile for the missing NUL by C16_ltt_record_unterminated) *)
+Theorem C16_tzif_rejects_min_offset : forall d st r, data_ok d -> selected d st ->
+  In r (blk_ltt_recs (st_local_time_types st)) -> rec_utoff r = -2147483648 ->
+  tzif_accepts d = false /\ exists e, parse d = Val (Err e) /\ (e = EInvalidTzFile \/ e = ELocalTimeType).
+Proof. exact rejects_min_offset. Qed.
+Print Assumptions C16_tzif_rejects_min_offset.
+Theorem C16_tzif_rejects_unterminated : forall d st r, data_ok d -> selected d st ->
+  In r (blk_ltt_recs (st_local_time_types st)) ->
+  has_nul (skipn (Z.to_nat (rec_idx r)) (st_names st)) = false ->
+  tzif_accepts d = false /\ exists e, parse d = Val (Err e) /\ (e = EInvalidTzFile \/ e = ELocalTimeType).
+Proof. exact rejects_unterminated. Qed.
+Print Assumptions C16_tzif_rejects_unterminated.
+Theorem C16_tzif_first_bad_record : forall d st pre r post e, data_ok d -> selected d st ->
+  blk_ltt_recs (st_local_time_types st) = pre ++ r :: post ->
+  forallb (ltt_rec_ok (st_names st)) pre = true -> ltt_res (st_names st) r = Err e ->
+  parse d = Val (Err e).
+Proof. exact first_bad_record. Qed.
+Print Assumptions C16_tzif_first_bad_record.
+
+(* inhabited: the Guayaquil version-1 file and a version-2 file with leap records, both indicator
+   arrays and the footer <CET>-01:00:00<CEST>-02:00:00,M03.5.0/02:00:00,M10.5.0/03:00:00 satisfy the
+   grammar and are read as [tzif_zone]; a type with utoff = i32::MIN + 1 and an empty designation
+   is accepted *)
+Example C16_tzif_accept_examples :
+  (data_ok example_v1_file /\ tzif_v1_accepts example_v1_file = true /\ tzif_accepts example_v1_file = true /\
+   parse example_v1_file = Val (Ok (tzif_zone example_v1_file))) /\
+  (data_ok file_berlin_v2 /\ tzif_v23_accepts file_berlin_v2 = true /\ tzif_accepts file_berlin_v2 = true /\
+   parse file_berlin_v2 = Val (Ok (tzif_zone file_berlin_v2)) /\ tzif_zone file_berlin_v2 = example_berlin) /\
+  (data_ok file_min_plus_one_v1 /\ tzif_accepts file_min_plus_one_v1 = true /\
+   tzif_zone file_min_plus_one_v1 = mk_tz [] [mk_ltt (-2147483647) false None] [] None).
+Proof. exact accept_examples. Qed.
+Print Assumptions C16_tzif_accept_examples.
+(* the two rejections on concrete files (version 1, and in the 64-bit block of a version-2 file):
+   utoff = i32::MIN on a type whose designation index points at a NUL -> LocalTimeType;
+   designation table LMT\0EST\0EDT without final NUL, index 8 -> InvalidTzFile *)
+Example C16_tzif_reject_examples :
+  (data_ok file_min_offset_v1 /\ selected file_min_offset_v1 (state_at file_min_offset_v1 0 4) /\
+   tzif_accepts file_min_offset_v1 = false /\ parse file_min_offset_v1 = Val (Err ELocalTimeType)) /\
+  (data_ok file_min_offset_v2 /\ selected file_min_offset_v2 (state_at file_min_offset_v2 (off2 file_min_offset_v2) 8) /\
+   tzif_accepts file_min_offset_v2 = false /\ parse file_min_offset_v2 = Val (Err ELocalTimeType)) /\
+  (data_ok file_unterminated_v1 /\ selected file_unterminated_v1 (state_at file_unterminated_v1 0 4) /\
+   tzif_accepts file_unterminated_v1 = false /\ parse file_unterminated_v1 = Val (Err EInvalidTzFile)) /\
+  (data_ok file_unterminated_v2 /\ selected file_unterminated_v2 (state_at file_unterminated_v2 (off2 file_unterminated_v2) 8) /\
+   tzif_accepts file_unterminated_v2 = false /\ parse file_unterminated_v2 = Val (Err EInvalidTzFile)).
+Proof. exact reject_examples. Qed.
+Print Assumptions C16_tzif_reject_examples.
